@@ -49,7 +49,7 @@ def _pass(types, defs, seed, junk_per_type):
         junk = vs.junk_pool(env)
         idx = list(range(len(junk)))
         if junk_per_type is not None and junk_per_type < len(idx):
-            idx = sorted(rng.sample(idx, junk_per_type))
+            idx = sorted(set(rng.sample(idx, junk_per_type)) | set(idx[-5:]))      # the protocol-bending values always
         inputs += [("junk", i, junk[i]) for i in idx]
         for j, v in enumerate(values(T, env, rng, 2)):
             try:
@@ -58,6 +58,10 @@ def _pass(types, defs, seed, junk_per_type):
                 continue
             for c, x in enumerate(vs.corruptions(w, rng)):
                 inputs.append(("corrupt", f"{j}.{c}", x))
+            # the same value with its class positions given as instances of exactly those classes holding raw (wire) members
+            ri, replaced = vs.raw_instance(T, w, env, defs)
+            if replaced:
+                inputs.append(("rawinst", f"{j}", ri))
         for kind, ident, x in inputs:
             out, _ = vs.out_of(typelib.unmarshal, ann, x)
             events.append({"ev": "unmarshal", "T": T, "out": out})
@@ -121,6 +125,16 @@ def _violations(rejects, events, meta):
 def run(ctx: Ctx) -> Outcome:
     profile = "quick" if ctx.quick else "full"
     events, meta, model, ntypes = collect(ctx, profile, 24 if ctx.quick else None)
+    # passive source: every unmarshal() call of the repository's own test suite, its annotation projected onto the term
+    # language and its classes described in a table carried by the event (harness/annterms.py)
+    from .. import suite
+    srec = suite.record().get("unmarshal", [])
+    nsuite = nsuite_asserted = 0
+    for m in srec:
+        events.append(m["event"])
+        meta.append(("suite", m["t"][:60], m["value"], "-", "suite"))
+        nsuite += 1
+        nsuite_asserted += 1 if m["asserted"] and m["event"]["out"]["k"] == "ok" else 0
     tres, rejects = tlc.validate_trace("Wire_Trace", "Wire_Trace.cfg", events, timeout=7200)
     viol = _violations(rejects, events, meta)
     returned = sum(1 for e in events if e["out"]["k"] == "ok")
@@ -128,10 +142,12 @@ def run(ctx: Ctx) -> Outcome:
     cov = {"states": model.distinct, "transitions": model.generated, "exhaustive": True,
            "traces_validated_against_impl": len(events), "evaluations": len(events),
            "distinct_nontrivial": len(nontrivial), "types": ntypes, "calls_returning": returned,
+           "suite_unmarshal_calls": nsuite, "suite_unmarshal_calls_asserted": nsuite_asserted,
            "rule": "every type of the TLC-enumerated universe (spec/Terms.tla, profile %s), visited in order and, in forked processes "
                    "that had not called typelib, in reverse order and class-free types first, x (junk pool sample + every single-step "
                    "corruption of the wire form of two valid values); non-trivial = the call returned a value (which TLC then "
-                   "checks with Conf), distinct by (type, input)" % profile,
+                   "checks with Conf), distinct by (type, input); plus every unmarshal() call the repository's own test suite makes, "
+                   "with its own annotations projected onto the term language" % profile,
            "samples": [events[len(events) // 3], events[2 * len(events) // 3]]}
     return Outcome(level="model_checking", coverage=cov, violations=viol,
                    assumptions=["Conf (spec/Wire.tla) is the structural type checker; Literal membership uses Python ==",
@@ -147,6 +163,8 @@ def replay(ctx: Ctx, rep: dict) -> Outcome:
     ann = env.annotation(c["T"])
     if c["input_kind"] == "junk":
         x = vs.junk_pool(env)[c["input_id"]]
+    elif c["input_kind"] == "rawinst":
+        x, _ = vs.raw_instance(c["T"], typelib.marshal(values(c["T"], env, rng, 2)[int(c["input_id"])], t=ann), env, defs)
     else:
         j, k = map(int, c["input_id"].split("."))
         x = vs.corruptions(typelib.marshal(values(c["T"], env, rng, 2)[j], t=ann), rng)[k]
